@@ -1,4 +1,5 @@
 """C09 - tampered, truncated or wrong-version snapshot packages are rejected."""
+import re
 from ..effects import make_effect_fn
 from ..terms import short, Int, subterms, _eq_atom
 from ..common import describe_path
@@ -8,7 +9,7 @@ RULES = {
     "S1": "must-pass-through: from_snapshot_json -> from_json -> from_snapshot_package -> into_snapshot; the snapshot handed to from_snapshot is the Ok payload of into_snapshot; inside into_snapshot the snapshot field is returned untouched after the Ok edge of validate(&self)",
     "S2": "who-may-read the protected field: PriceLevelSnapshotPackage.snapshot is read inside the crate only by validate, into_snapshot, new and derived impls",
     "S3": "validate gates: every path to Ok(()) takes the equal edge of `self.version` vs SNAPSHOT_FORMAT_VERSION and the equal edge of `compute_checksum(&self.snapshot)?` vs `self.checksum` (a plain string equality)",
-    "S4": "checksum covers everything: compute_checksum hashes serde_json::to_vec(<the whole parameter>) and formats the full digest ({:x}); Serialize for PriceLevelSnapshot emits one serialize_field per struct field fed by that field, the order list by forward iteration; no serde skip attribute in the snapshot's type closure",
+    "S4": "checksum covers everything: compute_checksum hashes serde_json::to_vec(<the whole parameter>) and formats the full digest ({:x}); Serialize for PriceLevelSnapshot emits one serialize_field per struct field fed by that field, the order list by forward iteration; no serde skip attribute and no substituted field serializer (serialize_with, with, getter, into, flatten) in the snapshot's type closure",
     "S5": "strict reader: the hand-written snapshot visitor rejects unknown keys (default arm -> unknown_field) and duplicate keys (each arm guarded -> duplicate_field), scalar fields missing -> missing_field; from_json uses serde_json::from_str (whole input)",
     "S6": "own packages validate: in PriceLevelSnapshotPackage::new the checksum is computed from the very value that is stored, after its last mutation, and the version stored is SNAPSHOT_FORMAT_VERSION",
 }
@@ -247,6 +248,12 @@ def run(ctx, chk):
         if "serde" in a["text"] and "skip" in a["text"]:
             if any(a["adt"].startswith(t) or a["owner"].startswith(t) for t in closure_types):
                 chk.fail("S4", "attr:%s.%s:skip" % (a["adt"], a["owner"]), a["span"], "serde attribute %s removes data from the checksummed serialization" % a["text"])
+        elif a["text"].startswith("#[serde") and re.search(r"\b(serialize_with|with|getter|into|flatten)\b\s*=|\bflatten\b", a["text"]):
+            # the checksum is taken over the serialized form: it must determine the value.  A derived field serializer
+            # does; a substituted one (serialize_with / with / getter / into) is a function this check cannot show injective
+            if any(a["adt"].startswith(t) or a["owner"].startswith(t) for t in closure_types):
+                chk.fail("S4", "attr:%s.%s:custom-serializer" % (a["adt"], a["owner"]), a["span"],
+                         "serde attribute %s replaces the derived serializer of a field inside the checksummed content: two different values may hash alike (the checksum no longer determines the field)" % a["text"], undecided=True)
     # ---------------- S5
     vs, vm_found = db.serde_visitors("PriceLevelSnapshot")
     chk.require(len(vs) == 1, "S5", "snapshot-field-visitor", "", "field visitor not found (%d)" % len(vs))
